@@ -45,6 +45,9 @@ type C03CCase struct {
 	AdvMs   []int     `json:"adv_ms"` // clock advance at the barrier after each phase
 	Workers []CWorker `json:"workers"`
 	Procs   int       `json:"procs,omitempty"`
+	// TwoHandles (sqlite): the database file is opened twice (as the gateway and `hookaido mcp` do); workers with
+	// an odd index and the operator work through the second handle
+	TwoHandles bool `json:"two_handles,omitempty"`
 }
 
 type grantEv struct {
@@ -96,6 +99,7 @@ func genC03CCase() *rapid.Generator[C03CCase] {
 			c.Workers = append(c.Workers, w)
 		}
 		c.Procs = rapid.SampledFrom([]int{0, 1, 2, 4}).Draw(t, "procs")
+		c.TwoHandles = c.Backend == "sqlite" && rapid.Bool().Draw(t, "two_handles")
 		return c
 	})
 }
@@ -103,7 +107,7 @@ func genC03CCase() *rapid.Generator[C03CCase] {
 func runC03C(c C03CCase, _ bool) *fOutcome {
 	out := newFOutcome()
 	clk := &fClock{}
-	var store queue.Store
+	var store, store2 queue.Store
 	switch c.Backend {
 	case "sqlite":
 		dir := fmt.Sprintf("%s/c03-%d", fScratch(), fSeq.Add(1))
@@ -114,6 +118,16 @@ func runC03C(c C03CCase, _ bool) *fOutcome {
 		}
 		defer func() { s.Close(); os.RemoveAll(dir) }()
 		store = s
+		if c.TwoHandles {
+			s2, err := queue.NewSQLiteStore(dir+"/q.db", queue.WithSQLiteNowFunc(clk.Now), queue.WithSQLiteCheckpointInterval(0))
+			if err != nil {
+				out.Failure = ffail("HARNESS", "open-second-handle", 0, "%v", err)
+				return out
+			}
+			defer s2.Close()
+			store2 = s2
+			out.Labels["two-handles"] = true
+		}
 	default:
 		store = queue.NewMemoryStore(queue.WithNowFunc(clk.Now))
 	}
@@ -144,6 +158,10 @@ func runC03C(c C03CCase, _ bool) *fOutcome {
 			wg.Add(1)
 			go func(wi int, w CWorker, acts []CWAct) {
 				defer wg.Done()
+				store := store
+				if store2 != nil && (wi%2 == 1 || w.Kind == "operator") {
+					store = store2
+				}
 				var held []grantEv
 				record := func(items []grantEv, inv, resp int64) {
 					seenIn := map[string]bool{}
